@@ -72,7 +72,7 @@ G1b(z) == G1bK("struct") \cup G1bK("enum")
 
 (* G1d: as G1b, but the root mentions the second argument of the first instantiation before the instantiation itself, so the *)
 (* argument ids of the kept instantiation are not ascending (parameter order must follow the declaration, not the ids)      *)
-ArgPairsD == {<<u16, u8>>, <<P_Vec(u8), u32>>, <<str, A0("U")>>}
+ArgPairsD == {<<u16, u8>>, <<P_Vec(u8), u32>>, <<str, A0("U")>>, <<P_Cow(str), u8>>}
 G1dCase(e1, e2, i1, i2) ==
   [fam |-> "G1d",
    prog |-> Program(<<Struct("R", Mod, <<>>, <<SField("pre", i1[2]), SField("x", P_Adt("D", i1)), SField("y", P_Adt("D", i2))>>), G1bDef(e1, e2, "struct")>> \o Helpers, <<>>),
@@ -96,6 +96,19 @@ G1fDef(e2, kind) ==
 G1f(z) == {[fam |-> "G1f",
             prog |-> Program(<<Struct("R", Mod, <<>>, <<SField("x", P_Adt("D", i1)), SField("y", P_Adt("D", i2))>>), G1fDef(e2, k)>> \o Helpers, <<>>),
             roots |-> <<A0("R")>>] : e2 \in {U, P_Vec(T), u8, P_Opt(U), P_Tup(<<T, U>>)}, k \in {"struct", "enum"}, i1 \in ArgPairsF, i2 \in ArgPairsF}
+
+(* G1g: three and four parameters with used and unused ones interleaved (the marker names exactly the unused ones, in order) *)
+A_ == P_Param("A")   B_ == P_Param("B")   C_ == P_Param("C")   D_ == P_Param("D")
+G1gDefs == {
+  Struct("D", Mod, <<Param("A"), Param("B"), Param("C")>>, <<SField("from", P_Phantom(A_)), SField("value", B_), SField("to", P_Phantom(C_))>>),
+  Struct("D", Mod, <<Param("A"), Param("B"), Param("C")>>, <<SField("from", P_Phantom(A_)), SField("value", P_Vec(B_)), SField("to", P_Phantom(C_))>>),
+  Struct("D", Mod, <<Param("A"), Param("B"), Param("C")>>, <<SField("a", A_), SField("m", P_Phantom(B_)), SField("c", P_Opt(C_))>>),
+  Struct("D", Mod, <<Param("A"), Param("B"), Param("C")>>, <<SField("", P_Phantom(A_)), SField("", P_Phantom(B_)), SField("", C_)>>),
+  Struct("D", Mod, <<Param("A"), Param("B"), Param("C")>>, <<SField("m", P_Phantom(P_Tup(<<A_, C_>>))), SField("b", B_)>>),
+  Enum("D", Mod, <<Param("A"), Param("B"), Param("C")>>, <<Variant("X", 0, <<SField("", P_Phantom(A_))>>), Variant("Y", 1, <<SField("v", B_)>>), Variant("Z", 2, <<SField("", P_Phantom(C_))>>)>>) }
+G1g(z) == {[fam |-> "G1g",
+            prog |-> Program(<<Struct("R", Mod, <<>>, <<SField("x", P_Adt("D", i1)), SField("y", P_Adt("D", i2))>>), d>> \o Helpers, <<>>),
+            roots |-> <<A0("R")>>] : d \in G1gDefs, i1 \in {<<u8, u16, bool>>, <<bool, u8, u16>>}, i2 \in {<<u8, u16, bool>>, <<u32, str, u64>>}}
 
 (* G1c: definitions in nested modules referring to each other, recursion through Box/Vec/Option<Box> *)
 RecKinds == {"box", "vec", "optbox", "mutual", "generic", "posbox", "shadow"}
@@ -241,6 +254,13 @@ G2Defs == <<
   V(Struct("FooT2", Mod, <<>>, <<SField("", u8), SField("", u8)>>)),
   V(Struct("FooV", Mod, <<Param("T")>>, <<SField("a", T), SField("b", P_Vec(u32))>>)),
   V(Struct("FooG2", Mod, <<Param("T"), Param("U")>>, <<SField("a", T), SField("b", U)>>)),
+  \* generics on nesting levels 1 and 3 (the level in between has none): indices of the generics stack are global
+  V(Struct("FooO1", Mod, <<Param("T")>>, <<SField("t", T), SField("m", A0("MidA"))>>)),
+  V(Struct("FooO2", Mod, <<Param("T")>>, <<SField("t", T), SField("m", A0("MidB"))>>)),
+  Versioned(Struct("MidA", Mod, <<>>, <<SField("i", P_Adt("InnA", <<u16>>))>>), "Mid"),
+  Versioned(Struct("MidB", Mod, <<>>, <<SField("i", P_Adt("InnB", <<u8>>))>>), "Mid"),
+  Versioned(Struct("InnA", Mod, <<Param("U")>>, <<SField("x", P_Vec(U))>>), "Inn"),
+  Versioned(Struct("InnB", Mod, <<Param("U")>>, <<SField("x", P_Vec(u32)), SField("p", P_Phantom(U))>>), "Inn"),
   V(Struct("FooN1", Mod, <<>>, <<SField("version", u8), SField("number", u16)>>)),
   V(Struct("FooN2", Mod, <<>>, <<SField("number", u16), SField("version", u8)>>)),
   V(Struct("FooP1", Mod, <<Param("T"), Param("U")>>, <<SField("", P_Vec(T)), SField("", P_Vec(U))>>)),
@@ -286,7 +306,7 @@ G2Prog == Program(G2Defs, <<CfgC1, CfgC2>>)
 G2Members == {P_Adt("FooG", <<u8>>), P_Adt("FooG", <<u16>>), P_Adt("FooG", <<bool>>), A0("FooC8"), A0("FooC16"),
               P_Adt("FooA", <<A0("C1")>>), P_Adt("FooA", <<A0("C2")>>), P_Adt("FooA2", <<A0("C1")>>), P_Adt("FooA2", <<A0("C2")>>),
               A0("FooX"), A0("FooX2"), A0("FooE"), A0("FooE2"), A0("FooE3"), A0("FooE4"), A0("FooT"), A0("FooT2"),
-              P_Adt("FooV", <<u32>>), P_Adt("FooV", <<u8>>), P_Adt("FooG2", <<u8, bool>>), P_Adt("FooP1", <<u8, bool>>), P_Adt("FooP2", <<u8, bool>>), A0("FooN1"), A0("FooN2"), A0("FooR"), A0("FooR2"),
+              P_Adt("FooV", <<u32>>), P_Adt("FooV", <<u8>>), P_Adt("FooG2", <<u8, bool>>), P_Adt("FooP1", <<u8, bool>>), P_Adt("FooP2", <<u8, bool>>), A0("FooN1"), A0("FooN2"), P_Adt("FooO1", <<u32>>), P_Adt("FooO2", <<u32>>), A0("FooR"), A0("FooR2"),
               P_Adt("FooA3", <<A0("C1"), u8, u16>>), P_Adt("FooA3", <<A0("C2"), u8, u16>>)}
 \* the (large) program is referenced by name so that the case records stay small: see ProgOf
 G2Case(roots) == [fam |-> "G2p", pid |-> "G2", prog |-> NoProg, roots |-> roots]
